@@ -9,8 +9,8 @@ def run(ctx):
         ctx.leanchecker("NGF.Props.C10")
 
     n_sync, n_racy, maxops = (300, 150, 30) if ctx.tier == "quick" else (6000, 3000, 60)
-    lines = (ctx.harness(["c10", "-seed", ctx.seed, "-n", n_sync, "-maxops", maxops]) or []) + \
-            (ctx.harness(["c10", "-seed", ctx.seed + 7919, "-n", n_racy, "-maxops", maxops, "-racy"]) or [])
+    lines = (ctx.harness(["-seed", ctx.seed, "-n", n_sync, "-maxops", maxops]) or []) + \
+            (ctx.harness(["-seed", ctx.seed + 7919, "-n", n_racy, "-maxops", maxops, "-racy"]) or [])
     if not getattr(ctx, "harness_ok", False):
         ctx.broken("harness does not build against the current tree", detail="\n".join(ctx.build_errors))
 
@@ -27,13 +27,13 @@ def run(ctx):
             judge_in.append(parts["J"])
 
     # the property itself, evaluated by the Lean judge on what the real loop did
-    verdicts = ctx.driver("C10", "judge", judge_in)
+    verdicts = ctx.driver("judge", judge_in)
     for j, v in zip(judge_in, verdicts):
         if v != "ok":
             ctx.finding(f"C10:{v.replace('fail ', '')}", f"event loop violates clause {v}", {"judge_input": j})
 
     # correspondence: the model replays the same schedule
-    outs = ctx.driver("C10", "model", model_in)
+    outs = ctx.driver("model", model_in)
     diffs = 0
     for m, o, out in zip(model_in, obs, outs):
         want = dict(f.split("=", 1) for f in o.split(" "))
